@@ -155,6 +155,7 @@ def run(ctx, prog, only_grad=False):
     if not only_grad:
         ctx.rule('C15.R1', "every virtual eval_* of manufactured_solution<Scalar> only inserts string literals (one containing 'MASA ERROR') into std::cout and returns the literal -1.33")
         ctx.rule('C15.R3', 'in every catalogue class a method named like a base virtual, or named eval_*, overrides a base virtual (clang overridden_methods), unless listed in tables/exceptions.json')
+        ctx.rule('C15.R4', 'every evaluator override takes exactly the class\'s number of coordinates (dimension, plus time for the classes of tables/temporal.json) unless listed in tables/exceptions.json extra_arity')
         ctx.rule('C15.R5', 'every masa_eval_* template declared in masa.h is defined in masa_core.cpp and explicitly instantiated for double and long double')
         ctx.rule('C15.PAIRS', 'for every (solution, API overload, scalar): the final overrider of the forwarded slot is either a catalogue-class override or a base stub of shape R1')
         ctx.explanation = ('37 solutions x 117 API overloads x 2 scalars are decided by 117 one-line forwarding templates, the base-class stubs and clang\'s '
@@ -219,6 +220,31 @@ def run(ctx, prog, only_grad=False):
                         ctx.ob('C15.R3', key + '|' + sc, False, m['l'],
                                '%s::%s %s has the name of an evaluator slot but overrides nothing (signature does not match any base virtual)' % (cat.short(r), m['n'], m['sig']))
         ctx.floor('overriding_methods<%s>' % scalar, n_over, 230)
+        # ---- R4 arity consistency: an override whose number of Scalar coordinates is not the class's own makes an
+        # arity the solution does not provide return a plausible number instead of the sentinel
+        import json as _json
+        tt = _json.load(open(os.path.join(VERIF, 'tables', 'temporal.json')))
+        extra = load_exceptions().get('extra_arity', {})
+        from .c14 import ctor_of, member_stores
+        from ..ast import int_value
+        from .c10 import evaluator_overrides
+        for cls, _, _ in ents:
+            short = cat.short(cls)
+            ctor = ctor_of(prog, cls)
+            st_ = member_stores(ctor, 'dimension') if ctor else []
+            dim = int_value(st_[0]['b']) if len(st_) == 1 and st_[0].get('k') == 'bin' else None
+            if dim is None:
+                continue
+            want = dim + (1 if short in tt['temporal'] and short not in tt['dimension_counts_time'] else 0)
+            for name, sig, f in evaluator_overrides(prog, cls, scalar):
+                ar = sum(1 for q in f.params if q['t'] == scalar)
+                if ar == want:
+                    continue
+                key = '%s::%s/%d' % (short, name, ar)
+                listed = key in extra or ('%s::*/%d' % (short, ar)) in extra
+                ctx.ob('C15.R4', key + '|' + sc, listed, f.where,
+                       '%s::%s overrides the %d-coordinate slot although the solution has %d coordinate(s): the unsupported arity returns a computed value instead of -1.33' % (short, name, ar, want),
+                       sample='%s (listed exception)' % key, nontrivial=False)
         # ---- PAIRS
         n_stub = n_impl = 0
         bad_pairs = []
